@@ -412,6 +412,33 @@ func (c *rctx) phi(p *ssa.Phi) string {
 }
 
 func (c *rctx) call(cc *ssa.CallCommon) string {
+	// readability normalisations on resolved callees
+	switch calleeName(cc) {
+	case "(*timestamppb.Timestamp).AsTime":
+		if len(cc.Args) == 1 {
+			return c.x(cc.Args[0]) + ".AsTime"
+		}
+	case "(time.Time).Before":
+		if len(cc.Args) == 2 {
+			return "(" + c.x(cc.Args[0]) + " <t " + c.x(cc.Args[1]) + ")"
+		}
+	case "(time.Time).After":
+		if len(cc.Args) == 2 {
+			return "(" + c.x(cc.Args[1]) + " <t " + c.x(cc.Args[0]) + ")"
+		}
+	case "(time.Time).Equal":
+		if len(cc.Args) == 2 {
+			a, b := c.x(cc.Args[0]), c.x(cc.Args[1])
+			if a > b {
+				a, b = b, a
+			}
+			return "(" + a + " ==t " + b + ")"
+		}
+	case "(time.Time).UTC":
+		if len(cc.Args) == 1 {
+			return c.x(cc.Args[0]) + ".UTC"
+		}
+	}
 	var args []string
 	if cc.IsInvoke() {
 		args = append(args, c.x(cc.Value))
@@ -571,7 +598,34 @@ func (e *Eng) CondLit(fn *ssa.Function, v ssa.Value) Lit {
 			}
 			return Lit{"(" + xs + " == " + ys + ")", pos}
 		}
+		if op == token.LSS {
+			// 0 < len(x)  ==  ¬(len(x) == 0);   len(x) < 1  ==  (len(x) == 0)
+			if isIntConst(x, 0) && isLenCall(y) {
+				return Lit{"(" + c.x(y) + " == 0)", !pos}
+			}
+			if isIntConst(y, 1) && isLenCall(x) {
+				return Lit{"(" + c.x(x) + " == 0)", pos}
+			}
+		}
 		return Lit{"(" + c.x(x) + " " + op.String() + " " + c.x(y) + ")", pos}
 	}
 	return Lit{c.x(v), pos}
+}
+
+func isIntConst(v ssa.Value, n int64) bool {
+	k, ok := v.(*ssa.Const)
+	if !ok || k.Value == nil || k.Value.Kind() != constant.Int {
+		return false
+	}
+	i, ok := constant.Int64Val(k.Value)
+	return ok && i == n
+}
+
+func isLenCall(v ssa.Value) bool {
+	c, ok := v.(*ssa.Call)
+	if !ok {
+		return false
+	}
+	b, ok := c.Call.Value.(*ssa.Builtin)
+	return ok && b.Name() == "len"
 }
